@@ -352,8 +352,12 @@ def gen_lf(rng, li, max_frames=30, names_pool=None, origin=None, waves=False):
             order.append(-rng.randrange(len(frames)) - 1)
     params = []
     if rng.chance(0.5):
-        for nm in rng.sample(['LOC ', 'COUN', 'STAT', 'NATI', 'APIN', 'UWI ', 'LATI', 'LONG', 'XYZ'], rng.randrange(1, 4)):
-            params.append([nm, rng.pick(['NORTH SEA', '15/17-9', 'UK', '  padded  ', 'a b c']), nm.strip() + ' description'])
+        # names from the RP66V1 parameter vocabulary the converter maps, names it does not know, and names that mean something
+        # else in the TARGET format (the mnemonics of the LAS well section): a parameter is data, whatever it is called
+        pool = ['LOC ', 'COUN', 'STAT', 'NATI', 'APIN', 'UWI ', 'LATI', 'LONG', 'XYZ', 'LOC', 'STRT', 'STOP', 'STEP', 'NULL', 'WELL', 'COMP', 'FLD', 'SRVC', 'DATE',
+                'CNTY', 'CTRY', 'PROV', 'API', 'UWI', 'VERS', 'WRAP']
+        for nm in rng.sample(pool, rng.randrange(1, 5)):
+            params.append([nm, rng.pick(['NORTH SEA', '15/17-9', 'UK', '  padded  ', 'a b c', '1234.5', '0.5', '-999.25']), nm.strip() + ' description'])
     return {'id': rng.pick(['MAIN PASS', 'REPEAT', 'auto_las_survey', 'X']) + f' {li}', 'origin': origin if origin is not None else rng.pick([1, 11, 41, 200]),
             'well': rng.pick(['PRASLIN 1', 'WELL #7', '29/10-3']), 'params': params, 'channels': channels, 'frames': frames, 'order': order}
 
